@@ -3,6 +3,7 @@ package main
 import (
 	"fmt"
 	"go/types"
+	"os"
 	"sort"
 	"strings"
 	"sync/atomic"
@@ -550,6 +551,9 @@ func (u *Unit) newRef(st *State) Term {
 func (u *Unit) havocHeaps(st *State, names []string, why string) {
 	if names == nil {
 		st.epoch = u.sym("ep")
+		if os.Getenv("GOCV_DEBUG") != "" {
+			fmt.Fprintf(os.Stderr, "%s: arbitrary heap effects (%s) at %s -> %s\n", u.FnName, why, u.curWhere, st.epoch)
+		}
 		for n := range u.heapSort {
 			names = append(names, n)
 		}
